@@ -658,12 +658,26 @@ func SelOrder(site string, n int) []int {
 }
 
 // SortedKeys returns the keys of a map in increasing order.
+// KeyOrder, when set (by the harness), gives keys that have no order of their
+// own (interfaces, pointers) a name to be ordered by, stable from one process
+// to the next: the range over such a map then follows it.
+var KeyOrder func(k interface{}) (string, bool)
+
 func SortedKeys(m interface{}) []interface{} {
 	v := reflect.ValueOf(m)
 	keys := v.MapKeys()
 	sort.Slice(keys, func(i, j int) bool {
 		a, b := keys[i], keys[j]
 		switch a.Kind() {
+		case reflect.Interface, reflect.Ptr:
+			if KeyOrder != nil && a.CanInterface() && b.CanInterface() {
+				x, okx := KeyOrder(a.Interface())
+				y, oky := KeyOrder(b.Interface())
+				if okx && oky {
+					return x < y
+				}
+			}
+			return false
 		case reflect.String:
 			return a.String() < b.String()
 		case reflect.Int, reflect.Int8, reflect.Int16, reflect.Int32, reflect.Int64:
